@@ -44,6 +44,22 @@ class Vec(tuple):
         return Vec(a + b for a, b in zip(self, o))
 
 
+class NumpyStub:
+    """`numpy` / `np` for evaluated fragments that only measure a distance: numpy.linalg.norm of one stand-in vector.  An evaluation
+    that has its own stand-in for numpy in its environment (checks/c15e.py) is not touched: this one is opt-in, through the env."""
+
+    _folder_stub = True
+
+    class _Linalg:
+        _folder_stub = True
+
+        @staticmethod
+        def norm(v):
+            return _norm(v)
+
+    linalg = _Linalg()
+
+
 def _norm(v: Any) -> float:
     if not isinstance(v, (tuple, list)) or not all(isinstance(x, (int, float)) for x in v):
         raise Unknown("numpy.linalg.norm of a value that is not a vector of numbers")
@@ -56,9 +72,6 @@ class _Rewrite(ast.NodeTransformer):
     def visit_Call(self, n: ast.Call):
         self.generic_visit(n)
         f = n.func
-        # numpy.linalg.norm(v) of one vector (no axis) -> Euclidean norm of a stand-in vector
-        if isinstance(f, ast.Attribute) and f.attr == "norm" and isinstance(f.value, ast.Attribute) and f.value.attr == "linalg" and isinstance(f.value.value, ast.Name) and f.value.value.id in ("np", "numpy") and len(n.args) == 1 and not n.keywords:
-            return ast.copy_location(ast.Call(func=ast.Name(id="norm__", ctx=ast.Load()), args=n.args, keywords=[]), n)
         if isinstance(f, ast.Attribute) and isinstance(f.value, ast.Name) and f.value.id in ("pd", "pandas", "np", "numpy", "math"):
             if f.attr in ("isna", "isnull", "isnan"):
                 return ast.copy_location(ast.Call(func=ast.Name(id="isna__", ctx=ast.Load()), args=n.args, keywords=[]), n)
@@ -125,7 +138,6 @@ class DefaultDictStub(dict):
 
 BASE = {
     "isna__": _isna,
-    "norm__": _norm,
     "notna__": lambda v: not _isna(v),
     "isinstance": lambda v, t: isinstance(v, t),
     "repr": repr,
